@@ -64,6 +64,8 @@ type ReplayFile struct {
 type agg struct {
 	Runs       int            `json:"runs"`
 	Overruns   int            `json:"overruns"`
+	Restarted  int            `json:"restarted"` // worker processes that died without a verdict and were run again
+	Retired    int            `json:"retired"` // workers that stopped early after a run whose goroutines did not exit (engine B)
 	Ops        int            `json:"ops"`
 	Steps      int            `json:"steps"`
 	SimNanos   int64          `json:"sim_nanos"`
@@ -248,6 +250,10 @@ func worker(all []*Scenario, a *Args) int {
 		}
 		if res.Overrun {
 			g.Overruns++
+			if res.Poisoned {
+				g.Retired = 1
+				break
+			}
 			continue
 		}
 		g.Ops += res.Stats.Ops
@@ -503,7 +509,9 @@ func driver(all []*Scenario, a *Args) int {
 		}
 		cmds = append(cmds, cmd)
 	}
+	var watchdogFired atomic.Bool
 	watchdog := time.AfterFunc(time.Duration((a.BudgetS*3+120)*float64(time.Second)), func() {
+		watchdogFired.Store(true)
 		for _, c := range cmds {
 			c.Process.Kill()
 		}
@@ -514,10 +522,35 @@ func driver(all []*Scenario, a *Args) int {
 	states := map[uint64]struct{}{}
 	broken := ""
 	var hang *hangReport
+	restarted := 0
 	for i, cmd := range cmds {
 		err := cmd.Wait()
 		errOut, _ := os.ReadFile(filepath.Join(tmp, fmt.Sprintf("w%d.err", i)))
 		data, rerr := os.ReadFile(filepath.Join(tmp, fmt.Sprintf("w%d.json", i)))
+		if ee, ok := err.(*exec.ExitError); rerr != nil && ok && ee.ExitCode() != 4 && !watchdogFired.Load() {
+			// The worker process died without a verdict (the runtime could not get a
+			// thread or memory, or it was killed from outside). A worker is a pure function of
+			// (seed, index), so its share is executed again from the start, once; if it dies
+			// again the trouble is reported.
+			firstErr := tail(string(errOut), 1500)
+			wa := *a
+			wa.Mode = "worker"
+			wa.Index = i
+			wa.Known = knownClasses
+			wa.Out = filepath.Join(tmp, fmt.Sprintf("w%d.json", i))
+			if rem := a.BudgetS - time.Since(start).Seconds(); rem > 10 {
+				wa.BudgetS = rem
+			} else {
+				wa.BudgetS = 10
+			}
+			errf, _ := os.Create(filepath.Join(tmp, fmt.Sprintf("w%d.err", i)))
+			c2 := spawn(&wa, errf, errf)
+			err = c2.Run()
+			restarted++
+			fmt.Fprintf(os.Stderr, "note: worker %d died without a result (exit %d) and was run again; its first stderr ended with:\n%s\n", i, ee.ExitCode(), firstErr)
+			errOut, _ = os.ReadFile(filepath.Join(tmp, fmt.Sprintf("w%d.err", i)))
+			data, rerr = os.ReadFile(filepath.Join(tmp, fmt.Sprintf("w%d.json", i)))
+		}
 		if rerr != nil {
 			code := -1
 			if ee, ok := err.(*exec.ExitError); ok {
@@ -543,6 +576,7 @@ func driver(all []*Scenario, a *Args) int {
 		}
 		total.Runs += g.Runs
 		total.Overruns += g.Overruns
+		total.Retired += g.Retired
 		total.Ops += g.Ops
 		total.Steps += g.Steps
 		total.SimNanos += g.SimNanos
@@ -567,6 +601,7 @@ func driver(all []*Scenario, a *Args) int {
 		}
 	}
 	watchdog.Stop()
+	total.Restarted = restarted
 	if broken != "" {
 		fmt.Fprintln(os.Stderr, "HARNESS ERROR (exit 2, not a violation):", broken)
 		return 2
@@ -600,6 +635,9 @@ func driver(all []*Scenario, a *Args) int {
 		a.Property, a.Tier, total.Runs, total.Ops, total.Steps, len(shapes), len(scheds), len(states), float64(total.SimNanos)/1e9, time.Since(start).Seconds())
 	if len(total.Faults) > 0 {
 		fmt.Printf("  faults fired: %v\n", total.Faults)
+	}
+	if total.Retired > 0 {
+		fmt.Printf("  note: %d worker process(es) retired early after a run whose goroutines did not exit within 60 s of real time (run discarded)\n", total.Retired)
 	}
 	if len(total.KnownHits) > 0 {
 		fmt.Printf("  runs discarded because they hit a listed known finding: %v\n", total.KnownHits)
